@@ -4,7 +4,7 @@ warnings.simplefilter("always", UserWarning)
 # for these fundamental functions, we throw warnings each time they are called
 
 import strax
-from strax import stable_sort, stable_argsort
+from strax import stable_argsort
 import numba
 from numba.typed import List
 import numpy as np
@@ -41,9 +41,10 @@ def sort_by_time(x):
         # Faster sorting:
         x = _sort_by_time_and_channel(x, channel, max_channel_plus_one)
     elif "channel" in x.dtype.names:
-        x = stable_sort(x, order=("time", "channel"))
+        # np.sort(order=...) breaks ties by the remaining fields; lexsort is stable
+        x = x[np.lexsort((channel, x["time"]))]
     else:
-        x = stable_sort(x, order=("time",))
+        x = x[stable_argsort(x["time"])]
     return x
 
 
